@@ -1404,7 +1404,7 @@ func (P *Program) mutatesParam(g *ssa.Function, k, depth int) bool {
 			}
 		}
 	}
-	visit(g.Params[k])
+	visit(paramAt(g, k))
 	if res {
 		mutMemo[key] = 1
 	} else {
